@@ -15,6 +15,7 @@ import XrayProofs.Closure
 import XrayModel.ScopeRun
 import XrayProofs.CompileProg
 import XrayProofs.CompileFun
+import XrayProofs.CompileFunProg
 namespace XrayModel.C03
 open XrayModel.Scope XrayModel.Core XrayModel.ScopeRun
 
@@ -311,25 +312,23 @@ FULL STATEMENT (not proved; `compile_correct`): for every core program `ds : Lis
   both sides", violations by kind, the same output lines and the same number of counted calls), and conversely.
 STATE OF THE PROOF.
  * whole programs of `let`s over the function-free fragment: `compile_correct_partial` (below), an equality for every fuel;
- * the run-time half of calls of top-level functions WITHOUT captures (parameters and natives only, no recursion, no
-   optional parameters, no local declarations): `compile_correct_call` (the call step: `callUser`, the trampoline, the
-   new activation and its parameter cells against `Core.callUser`/`tramp`/`bindParams`) and
-   `compile_correct_partial_calls` (expressions that call such functions, arguments left to right, under the frame
-   agreement `WF`) — equalities for every fuel: creating an activation and binding its parameters spends no fuel in
-   the cell model, exactly as `bindParams` in `Core.tramp`.
- NOT proved, towards the full statement:
- (a) the compile-time half for function declarations: that `closeFunc`/`into_static_ud`/`add_static_func` turn such a
-     declaration into the cells, declarations and body of `tmplOf k f`, and that root expressions compile to
-     `cxf root.vars root.funcs e` when the root scope has functions (`compile_frag` is for scopes without);
- (b) the declaration loop with `Declaration::Function`: that `mkTemplate` puts `tmplOf k f` into cell `k` and the frame
-     agreement `WF` is re-established for the following declarations from a syntactic condition on the program
-     (function names distinct from variable names, call sites with the right arity);
- (c) everything with captures: the value relation between named closures (code + default values + captured
-     environment) and cell closures (template + cells resolved by `from_spec`) when the capture list is not empty —
-     that the cells `capture_threading` and `use_reads_nearest` speak about are filled with the values of the named
-     environment (the structural theorems give the addresses, this would give the contents) — recursion cells,
-     closures as values (arguments, results, tuple items), nested declarations, defaults, lambdas; there the statement
-     has to be fuel-existential, because hoisted lambda declarations spend fuel the named evaluator does not.
+ * whole programs of `let`s and top-level functions WITHOUT captures (parameters and natives only, no recursion, no
+   optional parameters, no local declarations), called by name with the right arity — the decidable fragment
+   `progOKF`: `compile_correct_partial_funs` (at the end of this file), same shape, an equality for every fuel.  Its
+   pieces: the compile-time half `compile_correct_fun_decl` (`closeFunc`/`into_static_ud` give exactly the static
+   function of `tmplOf`; expressions over a scope with functions compile to `cxf vars funs e`, `compile_fragF`), the
+   declaration loop (`feed_runF`: `mkClos`/`mkTemplate` put the closure / the template `tmplOf k f` into the name / the
+   cell, the frame agreement is re-established from the decidable condition), and the run-time half
+   `compile_correct_call` / `compile_correct_partial_calls`.  Equalities at the same fuel: the cell model spends fuel
+   exactly where `Core.lean` does (binding parameters costs nothing, `evalDflts` walks over the required parameters).
+ NOT proved, towards the full statement — everything with captures:
+   the value relation between named closures (code + default values + captured environment) and cell closures
+   (template + cells resolved by `from_spec`) when the capture list is not empty — that the cells `capture_threading`
+   and `use_reads_nearest` speak about are filled with the values of the named environment (the structural theorems
+   give the addresses, this would give the contents); in particular a function calling another top-level function or
+   itself (a capture of a function cell / the recursion cell `LocalRecourse`, with the tail special case), closures
+   as values (arguments, results, tuple items), nested declarations, defaults, lambdas; with lambdas the statement has
+   to be fuel-existential, because hoisted lambda declarations spend fuel the named evaluator does not.
 
 PROVED (`compile_correct_partial`, for whole programs; `compile_correct_partial_expr` for expressions): the
 function-free fragment — no function declarations, no lambdas, no computed callees; variables (with shadowing), literals, tuples, arrays, item access, calls of bound non-function values, and
@@ -412,5 +411,52 @@ example : CellRun.FunOK "inc"
       (.call "if" [.call "lt" [.var "a", .int 0], .call "neg" [.var "a"], .call "add" [.var "a", .int 1]])) [] := by
   simp [CellRun.FunOK, CellRun.BodyOK, CellRun.BodyOKs, Core.Func.name, Core.Func.decls, Core.Func.params,
     Core.Func.body, Core.Param.name, Core.Param.dflt, Core.lookup]
+
+/-! ### whole programs with top-level functions without captures
+
+`CellRun.progOKF ds` (decidable): `let`s over the fragment and declarations `fn name(p₁ … pₙ) { body }` without
+optional parameters and local declarations whose body mentions only its parameters as variables and only names the
+program declares nowhere (natives) as callees; function names are distinct from each other, from the variables and
+from their own parameters; a function name is only used as a callee, with the right number of arguments.
+`CellRun.InvR bad sig fr root rfr N` (the outcome relation for a completed run): at EVERY name the named frame `fr` and
+the root activation `rfr` agree (`rel : ∀ x, RelAt …`): a variable's cell holds the image of its function-free value,
+a function's cell holds the template `tmplOf k f` of its closure `clos f [] env` (with `FunOK`), an unbound name is
+unbound on both sides. -/
+
+/-- **compile_correct_partial_funs.** For every program of that fragment that the scope model compiles: the compiled
+cell program run from the root template and `Core.runProgram` on the source end, for every fuel and configuration
+(depth limit not 0), in the same state (output lines, call counter) and in related outcomes: the same error value /
+violation / stuck / out-of-fuel outcome, or activations that agree at every name. -/
+theorem compile_correct_partial_funs (cfg : Core.Cfg) (ds : List Core.Decl) (hok : CellRun.progOKF ds = true) (cf : Nat)
+    (root : Scope) (hc : compileProgram cf (CellRun.ofDecls ds) = .ok root) (hdl : cfg.depthLimit ≠ some 0)
+    (fuel : Nat) :
+    (Core.runProgram fuel cfg ds).2 = (CellRun.runRoot fuel cfg root).2 ∧
+    match (Core.runProgram fuel cfg ds).1, (CellRun.runRoot fuel cfg root).1 with
+    | .ok fr, .ok rfr =>
+      CellRun.InvR (CellRun.declNames ds) (CellRun.sigAfter [] ds) fr root rfr root.cells.length
+    | .error r, .error r' => r' = CellRun.cr r
+    | _, _ => False :=
+  CellRun.compile_correct_program_funs cfg ds hok cf root hc hdl fuel
+
+/-- the compile-time half on its own: such a declaration compiles to exactly the static function whose template is
+`tmplOf` (`cfOf`: parameter cells, the recursion cell, `Parameter` declarations, the body compiled over the parameters),
+and nothing is pushed into the declaring scope -/
+theorem compile_correct_fun_decl (fuel : Nat) (cur : Scope) (name : String) (pps : List Core.Param) (body : Core.Expr)
+    (r : CFunc × Scope) (hd : ∀ p ∈ pps, p.dflt = none) (hn : name ∉ pps.map Core.Param.name)
+    (hb : CellRun.exprOK body = true) (hcb : CellRun.BodyC (pps.map Core.Param.name) name cur body)
+    (h : closeFunc fuel [] cur (some name) (.mk (CellRun.ofParams pps) [] (CellRun.ofExpr body)) = .ok r) :
+    r = (CellRun.cfOf (pps.map Core.Param.name) body, cur) :=
+  CellRun.close_fun fuel cur name pps body r hd hn hb hcb h
+
+/-- the fragment is inhabited: two functions (one through `if`), `let`s that call them (one call inside `if`,
+nested calls, `display`) -/
+example : CellRun.progOKF
+    [.fnD (.mk (some "inc") [.mk "a" none] [] (.call "add" [.var "a", .int 1])),
+     .fnD (.mk (some "absv") [.mk "a" none] []
+        (.call "if" [.call "lt" [.var "a", .int 0], .call "neg" [.var "a"], .var "a"])),
+     .letD "x" (.int 5),
+     .letD "y" (.call "if" [.call "lt" [.var "x", .int 3], .call "inc" [.var "x"],
+                            .call "absv" [.call "neg" [.call "inc" [.var "x"]]]]),
+     .letD "z" (.call "display" [.call "inc" [.var "y"]])] = true := by decide
 
 end XrayModel.C03
